@@ -13,6 +13,12 @@
 (* removed).  A chunk may be damaged (unreadable: the legacy engine skips  *)
 (* it when loading).                                                       *)
 (*                                                                         *)
+(* A read fault DURING the migration (cfg.rfault: the chunk files the       *)
+(* migrator cannot read while it runs - I/O error, file vanishing - though *)
+(* the legacy engine can read them before and after) is different from a   *)
+(* damaged chunk: the reference stays what the legacy engine loads, so the *)
+(* only acceptable outcome is that the migration of that swamp fails.      *)
+(*                                                                         *)
 (* One migration:  Start(cfg) ; Load ; (Empty | Write ; Verify? ;          *)
 (* Delete?) ; result "success", with a Fault possible at every step        *)
 (* (result "failed" and the phase).  v2 is the new file (records as a map, *)
@@ -33,7 +39,7 @@ VARIABLES v1,      \* [ex, chunks, name, bad]  (bad: set of indices of damaged c
           v2,      \* [ex, recs, name]
           orig,    \* v1 when the migration started (history variable)
           phase,   \* "legacy" | "loading" | "writing" | "verifying" | "deleting" | "done"
-          cfg,     \* [verify, deleteOld]
+          cfg,     \* [verify, deleteOld, rfault]
           loaded,  \* the records the migrator read
           result,  \* "none" | "success" | "failed"
           failedIn,
@@ -55,7 +61,7 @@ IsEmpty(m) == \A k \in Keys : m[k] = Absent
 
 Init ==
   /\ v1 = [ex |-> TRUE, chunks |-> <<>>, name |-> 1, bad |-> {}]
-  /\ v2 \in StaleTargets /\ orig = v1 /\ phase = "legacy" /\ cfg = [verify |-> FALSE, deleteOld |-> FALSE]
+  /\ v2 \in StaleTargets /\ orig = v1 /\ phase = "legacy" /\ cfg = [verify |-> FALSE, deleteOld |-> FALSE, rfault |-> {}]
   /\ loaded = [k \in Keys |-> Absent] /\ result = "none" /\ failedIn = "" /\ ops = 0
   /\ last = "Init"
 
@@ -97,7 +103,8 @@ DamageChunk(i) ==
 
 \* ---- the migration
 Start(c) ==
-  /\ phase = "legacy" /\ phase' = "loading" /\ cfg' = c /\ orig' = v1
+  /\ phase = "legacy" /\ c.rfault \subseteq DOMAIN v1.chunks
+  /\ phase' = "loading" /\ cfg' = c /\ orig' = v1
   /\ UNCHANGED <<v1, v2, loaded, result, failedIn>> /\ Tick("Start")
 
 Finish(r, ph) == phase' = "done" /\ result' = r /\ failedIn' = ph
@@ -105,7 +112,7 @@ Finish(r, ph) == phase' = "done" /\ result' = r /\ failedIn' = ph
 \* all chunks are read (a damaged chunk makes the real migrator give up - LoadFault -, skipping it like the
 \* legacy engine does would be just as good)
 Load ==
-  /\ phase = "loading"
+  /\ phase = "loading" /\ cfg.rfault = {}       \* (with a chunk it cannot read the migrator must give up: LoadFault)
   /\ loaded' = LoadV1(v1)
   /\ IF IsEmpty(LoadV1(v1))
        THEN /\ Finish("success", "")                     \* nothing to migrate: no new file (and no leftover one either)
@@ -161,7 +168,7 @@ Next ==
   \/ \E k \in Keys, v \in Vals : WriteNew(k, v) \/ Modify(k, v)
   \/ \E k \in Keys : DeleteShadow(k) \/ DeleteReal(k)
   \/ \E i \in 1..3 : DamageChunk(i)
-  \/ \E c \in [verify : BOOLEAN, deleteOld : BOOLEAN] : Start(c)
+  \/ \E c \in [verify : BOOLEAN, deleteOld : BOOLEAN, rfault : SUBSET (1..2)] : Start(c)
   \/ Load \/ LoadFault \/ Refuse \/ Write \/ (\E b \in BOOLEAN : WriteFault(b)) \/ Verify \/ VerifyFault
   \/ \E a \in BOOLEAN : Delete(a)
 Spec == Init /\ [][Next]_vars
